@@ -84,16 +84,46 @@ def _methods(idx):
 
 
 def _step_table(idx):
-    """(dict node, {key: method name}) of the dispatch table in compute."""
-    fi = idx.func(cm.MUNKRES + '.compute')
-    selfn = fi.params[0]
-    tables = [n for n in walk_own(fi.node) if isinstance(n, ast.Dict) and n.keys and
-              all(isinstance(k, ast.Constant) and isinstance(k.value, int) for k in n.keys) and
-              all(cm.is_self_attr(v, selfn) for v in n.values)]
-    if len(tables) != 1:
-        raise AnalysisError('Munkres.compute: expected one step dispatch table, found %d' % len(tables))
-    t = tables[0]
+    """(function that holds the table, dict node, {key: method name}) of the step dispatch table.
+
+    The table is looked for in compute and, when compute hands the dispatch to a helper method (`self.__run_steps()`),
+    in the methods compute calls directly.  `_dispatch_site(idx)` gives the place *in compute* where the steps run."""
+    comp = idx.func(cm.MUNKRES + '.compute')
+    ci = idx.cls(cm.MUNKRES)
+    cands = [comp] + [ci.methods[m] for m in _self_calls(comp, ci.methods) if m in ci.methods and m not in ('pad_matrix',)]
+    found = []
+    for fi in cands:
+        selfn = fi.params[0] if fi.params else None
+        for n in walk_own(fi.node):
+            if isinstance(n, ast.Dict) and n.keys and all(isinstance(k, ast.Constant) and isinstance(k.value, int) for k in n.keys) \
+                    and all(cm.is_self_attr(v, selfn) for v in n.values):
+                found.append((fi, n))
+    if len(found) != 1:
+        raise AnalysisError('Munkres.compute: expected one step dispatch table, found %d' % len(found))
+    fi, t = found[0]
     return fi, t, {k.value: v.attr for k, v in zip(t.keys, t.values)}
+
+
+def _dispatch_site(idx):
+    """CFG nodes of compute at which the step loop runs (the while loop, or the call of the helper that holds it)."""
+    comp = idx.func(cm.MUNKRES + '.compute')
+    holder, table, steps = _step_table(idx)
+    cfg = cfg_of(comp.node)
+    if holder is comp:
+        tname = None
+        st = cm.enclosing_stmt(table)
+        if isinstance(st, ast.Assign) and len(st.targets) == 1 and isinstance(st.targets[0], ast.Name):
+            tname = st.targets[0].id
+        loops = [w for w in walk_own(comp.node) if isinstance(w, ast.While) and any(
+            isinstance(s, ast.Subscript) and (cm.is_name(s.value, tname) or s.value is table) for s in ast.walk(w))]
+        if len(loops) != 1:
+            raise AnalysisError('Munkres.compute: cannot find the dispatch loop over the step table')
+        return cfg.nodes_of(loops[0])
+    calls = [c for c in walk_own(comp.node) if isinstance(c, ast.Call) and cm.is_self_attr(c.func, comp.params[0])
+             and c.func.attr == holder.name]
+    if len(calls) != 1:
+        raise AnalysisError('Munkres.compute: the helper %s that runs the steps is not called exactly once' % holder.name)
+    return cfg.nodes_containing(calls[0])
 
 
 def _self_calls(fi, methods):
@@ -391,19 +421,11 @@ def d2_init(ctx, idx):
 
 def init_body(r, idx):
     ci, methods = _methods(idx)
-    comp, table, steps = _step_table(idx)
+    comp = idx.func(cm.MUNKRES + '.compute')
+    holder, table, steps = _step_table(idx)
     selfn = comp.params[0]
     cfg = cfg_of(comp.node)
-    # the dispatch loop: the while statement that subscripts the step table
-    tname = None
-    st = cm.enclosing_stmt(table)
-    if isinstance(st, ast.Assign) and len(st.targets) == 1 and isinstance(st.targets[0], ast.Name):
-        tname = st.targets[0].id
-    loops = [w for w in walk_own(comp.node) if isinstance(w, ast.While) and any(
-        isinstance(s, ast.Subscript) and (cm.is_name(s.value, tname) or s.value is table) for s in ast.walk(w))]
-    if len(loops) != 1:
-        raise AnalysisError('Munkres.compute: cannot find the dispatch loop over the step table')
-    loop_nodes = cfg.nodes_of(loops[0])
+    loop_nodes = _dispatch_site(idx)
     reach = _reachable_methods(list(steps.values()), methods)
     needed = {}
     for m in reach:
